@@ -106,8 +106,12 @@ impl FixKind {
   }
 }
 
-fn program_code_start(program: Program) -> SourcePos {
-  match program_ref(program) {
+/// Where a new first statement goes: in front of the first statement, and in
+/// front of a `deno-lint-ignore` directive on the line above it, which has to
+/// stay directly above the statement it is about.
+fn program_code_start(ctx: &Context) -> SourcePos {
+  let program = ctx.program();
+  let code_start = match program_ref(program) {
     ast_view::ProgramRef::Module(m) => m
       .body
       .first()
@@ -118,7 +122,13 @@ fn program_code_start(program: Program) -> SourcePos {
       .first()
       .map(|node| node.start())
       .unwrap_or(program.start()),
-  }
+  };
+  let line = ctx.text_info().line_index(code_start);
+  line
+    .checked_sub(1)
+    .and_then(|above| ctx.line_ignore_directives().get(&above))
+    .map(|directive| directive.range().start)
+    .unwrap_or(code_start)
 }
 
 impl NoNodeGlobalsHandler {
@@ -139,7 +149,7 @@ impl NoNodeGlobalsHandler {
           AddNewline::Leading,
         )
       } else {
-        let code_start = program_code_start(ctx.program());
+        let code_start = program_code_start(ctx);
         (
           SourceRange::new(code_start, code_start),
           AddNewline::Trailing,
